@@ -379,7 +379,7 @@ class RegexPatternProvider(MorphingProvider):
 
             try:
                 return re_compile(data, flags)
-            except re.error as e:
+            except (re.error, OverflowError) as e:  # OverflowError: "the repetition number is too large"
                 raise ValueLoadError(str(e), data)
 
         return regex_loader
